@@ -205,6 +205,35 @@ pub fn run(ctx: &mut Ctx) {
             }
         }
     }
+    // grouping: the same operator nested in an operand position is a call of its own (its result is rounded,
+    // range-checked and delivered before the outer call sees it): floating-point + and * are not associative,
+    // an inner overflow is an error even when the outer operands would cancel it, an inner call has its own
+    // operand-count rules
+    {
+        let g: Vec<Value> = ["0.1", "0.2", "0.3", "1e308", "-1e308", "1e-200", "1e200", "9007199254740992", "1", "-1", "3", "\"x\"", "\"-Infinity\"", "\"1e309\"", "5e-324", "0.5"].iter().map(|t| al::parse(t)).collect();
+        for x in &g {
+            for y in &g {
+                if !ctx.mine() {
+                    continue;
+                }
+                for z in &g {
+                    ctx.edge();
+                    for k in ["+", "*", "max", "min"] {
+                        ctx.check(&format!("{}:grouping:right", k), &op(k, vec![x.clone(), op(k, vec![y.clone(), z.clone()])]), &null);
+                        ctx.check(&format!("{}:grouping:left", k), &op(k, vec![op(k, vec![x.clone(), y.clone()]), z.clone()]), &null);
+                    }
+                    ctx.check("+:grouping:minus", &json!({"+": [x, {"-": [y, z]}]}), &null);
+                    ctx.check("*:grouping:div", &json!({"*": [x, {"/": [y, z]}]}), &null);
+                }
+                for k in ["+", "*", "max", "min"] {
+                    ctx.check(&format!("{}:grouping:inner-unary", k), &op(k, vec![x.clone(), op(k, vec![y.clone()]), x.clone()]), &null);
+                    ctx.check(&format!("{}:grouping:inner-empty", k), &op(k, vec![x.clone(), op(k, vec![]), y.clone()]), &null);
+                    ctx.check(&format!("{}:grouping:inner-bare", k), &op(k, vec![x.clone(), al::obj1(k, y.clone())]), &null);
+                    ctx.check(&format!("{}:grouping:deep", k), &op(k, vec![x.clone(), op(k, vec![y.clone(), op(k, vec![x.clone(), op(k, vec![y.clone(), x.clone()])])])]), &null);
+                }
+            }
+        }
+    }
     // near-integers: two-decimal fractions against scale factors; the exact result is often one ulp
     // away from a whole number and must not be "tidied" into it
     {
